@@ -4,6 +4,8 @@ package main
 
 import (
 	"fmt"
+	"net"
+	"sync"
 	"sync/atomic"
 	"testing/synctest"
 	"time"
@@ -119,5 +121,91 @@ func c12closeWhileAdding(c *ctx, k int) {
 	}
 	a.kill()
 	b.kill()
+	c.o.case_(tag, true)
+}
+
+// gatedAddrConn is a connection whose LocalAddr / RemoteAddr park until released: every call that AddConnection makes
+// into the connection it is given becomes a point at which the session can be closed.
+type gatedAddrConn struct {
+	*fconn
+	parked  chan struct{}
+	release chan struct{}
+	once    sync.Once
+}
+
+func (g *gatedAddrConn) gate() {
+	g.once.Do(func() { close(g.parked) })
+	<-g.release
+}
+func (g *gatedAddrConn) LocalAddr() net.Addr  { g.gate(); return g.fconn.LocalAddr() }
+func (g *gatedAddrConn) RemoteAddr() net.Addr { g.gate(); return g.fconn.RemoteAddr() }
+
+// c12closeWhileAddrs: "session Close racing with ... ; all of the session's connections end up closed" -- the session is
+// closed (by Close, or by the peer's closing notice on another connection) while AddConnection is inside a call to the
+// connection's own LocalAddr()/RemoteAddr(). Wherever those calls sit relative to the insertion into the pool, the
+// connection must end up closed: either the sweep finds it, or the insertion is refused.
+func c12closeWhileAddrs(c *ctx, k int) {
+	r := c.r
+	method := byte(r.intn(4))
+	how := []string{"close", "fault-on-first-connection"}[k%2]
+	tag := fmt.Sprintf("session torn down (%s) while AddConnection is inside the connection's address calls #%d method=%d", how, k, method)
+	var key [32]byte
+	copy(key[:], r.bytes(32))
+	ob, err := mux.MakeObfuscator(method, key)
+	if err != nil {
+		panic(err)
+	}
+	sesh := mux.MakeSession(22, mux.SessionConfig{Obfuscator: ob, InactivityTimeout: time.Hour, MsgOnWireSizeLimit: 16401})
+	a0, b0 := newPair("zero")
+	sesh.AddConnection(b0)
+	a, b := newPair("late")
+	g := &gatedAddrConn{fconn: b, parked: make(chan struct{}), release: make(chan struct{})}
+	added := make(chan struct{})
+	go func() { sesh.AddConnection(g); close(added) }()
+	select {
+	case <-g.parked:
+	case <-time.After(5 * time.Second):
+		c.o.N("C12 close while in the address calls: AddConnection made no address call — case skipped")
+		close(g.release)
+		return
+	}
+	down := make(chan struct{})
+	go func() {
+		if how == "close" {
+			sesh.Close()
+		} else {
+			a0.kill() // a reset seen by both ends of the first connection
+			b0.kill()
+		}
+		close(down)
+	}()
+	select {
+	case <-down:
+	case <-time.After(300 * time.Millisecond): // the teardown may be waiting for a lock AddConnection holds: let it
+	}
+	deadline := time.Now().Add(2 * time.Second)
+	for !sesh.IsClosed() && time.Now().Before(deadline) {
+		time.Sleep(5 * time.Millisecond)
+	}
+	time.Sleep(30 * time.Millisecond)
+	close(g.release)
+	for _, ch := range []chan struct{}{down, added} {
+		select {
+		case <-ch:
+		case <-time.After(20 * time.Second):
+			c.o.V("C12 close-did-not-return", map[string]any{"tag": tag})
+			return
+		}
+	}
+	time.Sleep(50 * time.Millisecond)
+	if !b.isClosed() {
+		c.o.V("C12 connection-left-open added-while-the-session-was-torn-down", map[string]any{"tag": tag,
+			"what": "the session was torn down while AddConnection was under way; the connection it was adding is in the pool (or nowhere) and was never closed: its receive loop serves a closed session and the peer keeps a connection it believes healthy",
+			"replay": "MakeSession; AddConnection(first); AddConnection(conn whose LocalAddr/RemoteAddr park) in a goroutine; " + how + "; wait until IsClosed; release the address calls"})
+	}
+	a.kill()
+	b.kill()
+	a0.kill()
+	b0.kill()
 	c.o.case_(tag, true)
 }
